@@ -47,16 +47,19 @@ class Interp:
             return len(STD_VARIANTS[path])
         return len(self.F.adt(path)["variants"])
 
-    def run(self, body, args, depth=0):
-        env = {}
+    def run(self, body, args, depth=0, start=0, env=None, stop=()):
+        """interpret from block `start`; reaching a block in `stop` (after at least one step) returns ("stop", bb)"""
+        env = dict(env or {})
         for k, a in enumerate(args):
             env[k + 1] = a
-        bb = 0
+        bb = start
         steps = 0
         while True:
             steps += 1
             if steps > 400:
                 raise Unsupported("loop or too long")
+            if steps > 1 and bb in stop:
+                return ("stop", bb)
             blk = body.blocks[bb]
             for s in blk["s"]:
                 if "d" not in s:
@@ -67,7 +70,15 @@ class Interp:
                 return env.get(0, ("tuple", []))
             if "goto" in t:
                 bb = t["goto"]
-            elif "drop" in t or "assert" in t:
+            elif "drop" in t:
+                bb = t["target"]
+            elif "assert" in t:
+                try:
+                    cv = self.operand(body, env, t["assert"])
+                except Unsupported:
+                    cv = None
+                if isinstance(cv, (bool, int)) and bool(cv) != bool(t.get("expected", True)):
+                    raise Unsupported(f"assertion ({t.get('kind')}) fails: the code panics here")
                 bb = t["target"]
             elif "switch" in t:
                 v = self.operand(body, env, t["switch"])
@@ -102,10 +113,15 @@ class Interp:
         if d in ("core::cmp::PartialEq::eq", "core::cmp::PartialEq::ne") and len(argv) == 2 and not contains_opaque(argv[0]) and not contains_opaque(argv[1]):
             r = argv[0] == argv[1]
             return r if d.endswith("eq") else not r
+        if d == "core::intrinsics::discriminant_value" and argv and is_adt(argv[0]):
+            return argv[0][2]
         if d == "core::option::Option::<T>::is_some" and is_adt(argv[0]):
             return argv[0][2] == 1
         if d == "core::option::Option::<T>::is_none" and is_adt(argv[0]):
             return argv[0][2] == 0
+        if name in ASCII_PREDICATES and ("<impl u8>" in d or "<impl char>" in d) and argv and isinstance(argv[0], int) and not isinstance(argv[0], bool):
+            v = argv[0]
+            return 0 <= v < 128 and ASCII_PREDICATES[name](chr(v))
         rid = (f.get("resolved") or {}).get("id") if f.get("resolved", {}).get("local") else (f.get("id") if f.get("local") else None)
         if rid and depth < self.max_depth and (self.inline is None or self.inline(d, rid)):
             cb = self.crate.body(rid)
@@ -138,6 +154,17 @@ class Interp:
             if isinstance(e, dict) and "dc" in e:
                 variant = e["dc"]
                 continue
+            if isinstance(e, dict) and "idx" in e:
+                i = env.get(e["idx"])
+                if isinstance(v, tuple) and v and v[0] == "mem" and isinstance(i, int) and not isinstance(i, bool):
+                    if not 0 <= i < len(v[1]):
+                        raise Unsupported("index out of range: the code panics here")
+                    v = v[1][i]
+                    continue
+                if isinstance(v, tuple) and v and v[0] == "array" and isinstance(i, int):
+                    v = v[1][i]
+                    continue
+                raise Unsupported("index projection on " + repr(v)[:40])
             if isinstance(e, dict) and "f" in e:
                 if is_adt(v):
                     if variant is not None and v[2] != variant:
@@ -157,17 +184,25 @@ class Interp:
     def operand(self, body, env, op):
         c = op.get("c")
         if c is not None:
-            for k in ("int", "bool", "str", "char"):
+            for k in ("int", "bool", "str"):
                 if k in c:
                     return c[k]
+            if "char" in c:
+                return ord(c["char"]) if isinstance(c["char"], str) and len(c["char"]) == 1 else c["char"]
             if "fn" in c:
                 return ("fn", c["fn"]["def"])
             if "promoted" in c:
                 return self.promoted(body, c["promoted"])
             if c.get("zst"):
                 return ("tuple", [])
-            if "item" in c:
-                return ("item", c["item"])
+            for k in ("static", "item"):
+                if k in c:
+                    cst = self.crate.consts.get(c[k]) if hasattr(self.crate, "consts") else None
+                    if cst and "mem" in cst:
+                        return ("mem", bytes.fromhex(cst["mem"]), c[k])
+                    if cst and "int" in cst:
+                        return cst["int"]
+                    return ("item", c[k])
             return ("sym", "const")
         return self.place(body, env, op_place(op))
 
@@ -187,7 +222,10 @@ class Interp:
         if "ref" in r:
             return self.place(body, env, r["ref"])
         if "cast" in r:
-            return self.operand(body, env, r["cast"])
+            v = self.operand(body, env, r["cast"])
+            if r.get("kind") == "IntToInt" and isinstance(v, int) and not isinstance(v, bool):
+                return wrap_int(v, (r.get("to") or {}).get("prim"))
+            return v
         if "discr" in r:
             v = self.place(body, env, r["discr"])
             if is_adt(v):
@@ -225,6 +263,33 @@ class Interp:
                 return not a
             raise Unsupported("unop")
         raise Unsupported("rvalue " + ",".join(r))
+
+
+ASCII_PREDICATES = {
+    "is_ascii": lambda c: True,
+    "is_ascii_uppercase": lambda c: "A" <= c <= "Z",
+    "is_ascii_lowercase": lambda c: "a" <= c <= "z",
+    "is_ascii_alphabetic": lambda c: "A" <= c <= "Z" or "a" <= c <= "z",
+    "is_ascii_digit": lambda c: "0" <= c <= "9",
+    "is_ascii_alphanumeric": lambda c: "A" <= c <= "Z" or "a" <= c <= "z" or "0" <= c <= "9",
+    "is_ascii_hexdigit": lambda c: c in "0123456789abcdefABCDEF",
+    "is_ascii_punctuation": lambda c: c in "!\"#$%&'()*+,-./:;<=>?@[\\]^_`{|}~",
+    "is_ascii_graphic": lambda c: "!" <= c <= "~",
+    "is_ascii_whitespace": lambda c: c in " \t\n\x0c\r",
+    "is_ascii_control": lambda c: ord(c) < 32 or ord(c) == 127,
+}
+
+WIDTH = {"u8": 8, "i8": 8, "u16": 16, "i16": 16, "u32": 32, "i32": 32, "u64": 64, "i64": 64, "usize": 64, "isize": 64, "u128": 128, "i128": 128, "char": 32}
+
+
+def wrap_int(v, prim):
+    w = WIDTH.get(prim)
+    if w is None:
+        return v
+    v &= (1 << w) - 1
+    if prim[0] == "i" and v >> (w - 1):
+        v -= 1 << w
+    return v
 
 
 def is_adt(v):
